@@ -92,7 +92,9 @@ func cmdCheck(args []string) int {
 	if *tier == "thorough" {
 		opts = VerifyOpts{LiveTimeoutMs: 5000, RaceTimeoutS: 60, PathCap: 20000, InlineDepth: 3}
 	}
-	defer os.RemoveAll(scratchDir())
+	if os.Getenv("GOVC_KEEP") == "" {
+		defer os.RemoveAll(scratchDir())
+	}
 
 	var todo []*FuncContract
 	var keys []string
